@@ -778,7 +778,27 @@ def n_unions(call):
 
 
 def gen_files():
-    return {}
+    from translate import typeeval as tr_typeeval
+
+    return {"TypeEvalGen.v": tr_typeeval.translate(str(lib.REPO))}
+
+
+def changed_regions():
+    """names of the pinned source regions whose digest differs from the committed one"""
+    from translate import regions as tr_regions
+    from translate import typeeval as tr_typeeval
+
+    try:
+        pins = tr_typeeval.pins(str(lib.REPO))
+    except tr_regions.TranslateError as ex:
+        return [str(ex)]
+    txt = (lib.THEORIES / "Proofs" / "TypeEvalPins.v").read_text()
+    out = []
+    for name, (region, dg) in pins.items():
+        m = re.search(r"Lemma %s_ok : %s = \"([0-9a-f]+)\"" % (name, name), txt)
+        if not m or m.group(1) != dg:
+            out.append(f"{name}: {region}")
+    return out
 
 
 # ---------------------------------------------------------------------------
@@ -810,7 +830,13 @@ def run(tier: str, replay: str | None = None):
 
     rep = lib.Report(PROP, tier, "proof")
     rng = random.Random(lib.seed() * 9173 + 20)
-    proof = lib.prove(PROP, gen_files(), thorough=(tier == "thorough"))
+    broken_translation = None
+    try:
+        gen = gen_files()
+    except Exception as ex:  # TranslateError: the translated / pinned source no longer has the expected shape
+        broken_translation = str(ex)
+        gen = {}
+    proof = lib.prove(PROP, gen, thorough=(tier == "thorough"))
 
     if replay:
         r = json.loads(Path(replay).read_text())
@@ -877,6 +903,7 @@ def run(tier: str, replay: str | None = None):
             rep.violation({"kind": "broken-correspondence", "correspondence": "Eval.TypeEval.evaluate vs Evaluator.evaluate", "detail": str(ex)[-1500:]}, no_failing_input=True)
 
     failing, known, corr = [], [], []
+    undecided = 0
     hist = {"mode": {}, "impl_nrets": {}, "impl_nerrs": {}, "bind": {}, "cond_kinds": {}}
     distinct = set()
     n_eval = 0
@@ -954,6 +981,8 @@ def run(tier: str, replay: str | None = None):
                     sup = set(dset["rets"]) >= want_r and set(dset["errs"]) >= want_e
                     if sup and fallthrough_after_return(case["body"]) and m is not None and m == dset:
                         known.append(("C20-fallthrough-not-narrowed", ci, ki))
+                    elif sup and fallthrough_after_return(case["body"]) and m is None and not model_ok:
+                        undecided += 1  # inside the finding's guard, but the model could not be built: the broken obligation is reported instead
                     else:
                         failing.append((ci, ki, "union call is not the union of the member calls" + (" (superset)" if sup else " (members' results missing: unsound)"), dset, want))
 
@@ -976,8 +1005,11 @@ def run(tier: str, replay: str | None = None):
         ci, ki, obs, m = corr[0]
         rep.violation({"kind": "broken-correspondence", "correspondence": "Eval.TypeEval.evaluate vs Evaluator.evaluate (end to end)",
                        "input": payload(ci, ki), "observed": obs, "model": m, "n_mismatches": len(corr)}, no_failing_input=True)
+    if broken_translation and not found_input:
+        rep.violation({"kind": "broken-obligation", "theorem": "Gen/TypeEvalGen.v (translator harness/translate/typeeval.py)", "detail": broken_translation}, no_failing_input=True)
     if not proof.ok and not found_input:
-        rep.violation({"kind": "broken-obligation", "theorem": "; ".join(proof.broken), "log": proof.log[-1500:]}, no_failing_input=True)
+        rep.violation({"kind": "broken-obligation", "theorem": "; ".join(proof.broken), "changed_source_regions": changed_regions(),
+                       "log": proof.log[-1500:]}, no_failing_input=True)
     for cid, crash in crashes[:3]:
         rep.violation({"kind": "broken-correspondence", "correspondence": "checker raised on a generated module", "detail": crash, "chunk": cid}, no_failing_input=True)
     if table_mismatch:
@@ -999,6 +1031,7 @@ def run(tier: str, replay: str | None = None):
         correspondence_mismatches=len(corr),
         oracle_failures=len(failing),
         known_finding_hits=len(known),
+        undecided_without_model=undecided,
         input_distribution=hist,
         exhaustive=False,
     )
